@@ -428,6 +428,12 @@ class Gen:
         evs = [("N", host) if host else ("d", None), ident, ("n", nick), ("U", [claimed, real])]
         if r.random() < 0.25:
             evs.append(("n", word(r, self.L(NICKLEN))))
+        if r.random() < 0.07:
+            # the client sends USER again with other (shorter or longer) names: the later line counts
+            c2 = r.choice([claimed[:max(1, len(claimed) // 3)], word(r, 2), claimed + "x", word(r, self.L(USERLEN))])
+            r2 = r.choice([real[:max(0, len(real) // 3)], "R", real + " jr", word(r, 5)])
+            evs.append(("U", [c2, r2]))
+            self.fire("second_user_line")
         for _ in range(r.choice([0, 0, 1, 1, 1, 2])):
             evs.append(("P", self.gen_pass(True)))
         if "cli_pass_illshaped" in self.faults and r.random() < 0.3:
